@@ -321,6 +321,9 @@ def run(ctx):
     # the writers of the root store and of each sub-store pick their members by `*_substore_map.get(handle)`: absence must mean absence
     from props.c01 import emptyrow_rule
     emptyrow_rule(ctx, syn, rid="C05.EMPTYROW")
+    from props.c01 import exclusive_rule
+    exclusive_rule(ctx, syn, rid="C05.EXCLUSIVE")   # annotation -> sub-store membership decides into which file an annotation is written
+    walk_rule(ctx, syn)
     mir_rules(ctx)
 
 
@@ -405,6 +408,29 @@ def omit_rule(ctx, syn, rid="C05.OMIT"):
                             if (wkey, fname) not in OMIT_OK:
                                 ctx.report(r, "%s|%s" % (wkey, fname), "the writer of %s leaves out %s depending on its value (`%s`): the reader does not restore that value when the field is missing (for a selector a missing offset means 'no text selection', not the default offset), so the item comes back different" % (wkey, fname, unparse(cmp_)[:80]), im.get("_file"), node.get("l"))
     ctx.floor(r, n, 40, "fields written by the STAM JSON writers")
+
+
+def walk_rule(ctx, syn):
+    """a writer emits the selectors an annotation *has*; Selector::iter(store, recurse_annotation = true) also yields the
+    selectors of the annotations it targets, which then come back as extra sub-selectors"""
+    r = ctx.rule("C05.WALK", "the selector writers walk a selector with recurse_annotation = false (internal ranged selectors are expanded, annotation selectors are not followed into their targets)")
+    n = 0
+    for im in syn.impls:
+        tr = im.get("trait") or ""
+        if norm_ty(tr).split("::")[-1] != "Serialize":
+            continue
+        for m in im["items"]:
+            if m.get("k") != "fn" or not m.get("body"):
+                continue
+            for c in walk(m["body"]):
+                if c.get("k") == "mcall" and c["method"] == "iter" and len(c["args"]) == 2:
+                    n += 1
+                    flag = unparse(strip(c["args"][1]))
+                    key = "%s|%s" % (self_ty_key(im["self_ty"]["s"]), unparse(c)[:40])
+                    r.hit(key, sample={"writer": self_ty_key(im["self_ty"]["s"]), "walk": unparse(c)[:60]})
+                    if flag != "false":
+                        ctx.report(r, "%s|recursive-walk" % self_ty_key(im["self_ty"]["s"]), "the writer of %s walks sub-selectors with recurse_annotation = %s: each annotation selector is followed by the selectors of the annotation it points at, so the target is written (and read back) with extra sub-selectors" % (self_ty_key(im["self_ty"]["s"]), flag), im.get("_file"), c.get("l"))
+    ctx.floor(r, n, 1, "selector walks in the writers")
 
 
 def clean_rule(ctx, syn):
